@@ -336,6 +336,10 @@ WithLiteral = Annotated[Union[Cat, Bird], discriminator("type")]
 WithStrField = Annotated[Union[Cat, Fish], discriminator("type")]
 WithAliasedLiteral = Annotated[Union[Cat, Eel], discriminator("type")]
 WithPlainStrField = Annotated[Union[Cat, Bee], discriminator("type")]
+# the discriminator merged with other metadata in one annotation, and the union written Cat | Dog (PEP 604)
+MergedMetadata = Annotated[Union[Cat, Dog], discriminator("type") | schema(description="a pet")]
+MergedMetadataRev = Annotated[Union[Cat, Dog], schema(description="a pet") | discriminator("type")]
+Pep604 = Annotated[Cat | Dog, discriminator("type")]
 
 @discriminator("kind")
 class Pet:
@@ -404,6 +408,9 @@ EXPECT = {
     "NoOverride": (NoOverride, "type", {"c": Cat, "Cat": Cat, "Dog": Dog}, set()),
     "WithLiteral": (WithLiteral, "type", {"Cat": Cat, "bird": Bird, "avian": Bird}, {Bird}),
     "WithStrField": (WithStrField, "type", {"Cat": Cat, "Fish": Fish}, {Fish}),
+    "MergedMetadata": (MergedMetadata, "type", {"Cat": Cat, "Dog": Dog}, set()),
+    "MergedMetadataRev": (MergedMetadataRev, "type", {"Cat": Cat, "Dog": Dog}, set()),
+    "Pep604": (Pep604, "type", {"Cat": Cat, "Dog": Dog}, set()),
     "WithPlainStrField": (WithPlainStrField, "type", {"Cat": Cat, "Bee": Bee}, {Bee}),
     "WithAliasedLiteral": (WithAliasedLiteral, "type", {"Cat": Cat, "eel": Eel, "anguilla": Eel}, {Eel}),
     "Inherited": (Inherited, "kind", {"Kitten": Kitten, "Puppy": Puppy}, {Puppy}),
